@@ -142,6 +142,7 @@ if ( jcol == MIN_COL ) {
 	perm_r[*pivrow] = jcol;
 #endif
 	*usepr = 0;
+	SLU_VERIF_EVENT(1, jcol, 0);
 	return (jcol+1);
     }
 
